@@ -7,7 +7,7 @@
      - TracerProvider::GetTracer, MeterProvider::GetMeter, LoggerProvider::GetLogger, InstrumentationScope::equal,
        AttributeMap::EqualTo, Tracer::StartSpan / Logger::EmitLogRecord / Logger::GetName when the scope is disabled.
    The build under test is ABI v1 with std::regex (OPENTELEMETRY_HAVE_WORKING_REGEX): GetTracer/GetMeter take no attributes,
-   synchronous gauges do not exist.  Defects of the code are reproduced, not repaired.  Definitions only. *)
+   synchronous gauges do not exist.  Open defects of the code (F14, F22, F23) are reproduced, not repaired.  Definitions only. *)
 From V Require Export Base.Rx Gen.Consts.
 Local Open Scope N_scope.
 
@@ -326,24 +326,32 @@ Fixpoint amap_get (k : bytes) (m : attrs) : option aval :=
   | [] => None
   | (k', v) :: m' => if bytes_eqb k' k then Some v else amap_get k m'
   end.
-(* AttributeMap::EqualTo: size() of the iterable (duplicates counted) against size() of the map, then every given pair
-   must be found with an equal value *)
+(* the last value a KeyValueIterable gives for a key (the loop keeps overwriting found/equal) *)
+Fixpoint given_last (k : bytes) (given : attrs) (acc : option aval) : option aval :=
+  match given with
+  | [] => acc
+  | (k', v) :: g' => given_last k g' (if bytes_eqb k' k then Some v else acc)
+  end.
+(* AttributeMap::EqualTo (as repaired by 4364788): not fewer pairs than the map has keys; every given key is a key of the
+   map; every value of the map equals the last value given for its key *)
 Definition equal_to (m : attrs) (given : attrs) : bool :=
-  Nat.eqb (length given) (length m) &&
-  forallb (fun kv => match amap_get (fst kv) m with Some v => aval_eqb v (snd kv) | None => false end) given.
-
-Definition noop_logger_name : bytes := map n2b kNoopLoggerName.
+  negb (Nat.ltb (length given) (length m)) &&
+  forallb (fun kv => match amap_get (fst kv) m with Some _ => true | None => false end) given &&
+  forallb (fun kv => match given_last (fst kv) given None with Some v => aval_eqb (snd kv) v | None => false end) m.
 
 Record logger := mk_logger { l_name : bytes; l_scope : scope_id; l_attrs : attrs; l_enabled : bool; l_first : nat }.
-(* Logger::GetName *)
+(* Logger::GetName: a logger whose scope is disabled answers with the no-op logger's name (not used by the registry
+   any more, 6b10326) *)
+Definition noop_logger_name : bytes := map n2b kNoopLoggerName.
 Definition logger_get_name (l : logger) : bytes := if l_enabled l then l_name l else noop_logger_name.
 
 Record lreq := mk_lreq { q_name : bytes; q_lib : bytes; q_ver : bytes; q_schema : bytes; q_attrs : attrs }.
 (* library_name.empty() -> logger_name *)
 Definition q_scope (q : lreq) : scope_id := mk_scope (if is_nil (q_lib q) then q_name q else q_lib q) (q_ver q) (q_schema q).
 
+(* LoggerProvider::GetLogger compares the name the logger was created with *)
 Definition logger_matches (q : lreq) (l : logger) : bool :=
-  bytes_eqb (logger_get_name l) (q_name q) && scope_eqb (l_scope l) (q_scope q) && equal_to (l_attrs l) (q_attrs q).
+  bytes_eqb (l_name l) (q_name q) && scope_eqb (l_scope l) (q_scope q) && equal_to (l_attrs l) (q_attrs q).
 
 Record lrec := mk_lrec { r_call : nat; r_scope : scope_id; r_attrs : attrs }.
 Record lstate := mk_lstate { ls_loggers : list logger; ls_calls : nat; ls_out : list nat; ls_recs : list lrec }.
